@@ -286,6 +286,20 @@ func GenC12(rng *rand.Rand, thorough bool, emit func(*Sx)) {
 								}
 								probe("MAIL FROM:<p@x> SIZE=1000", 250)
 								probe("MAIL FROM:<p@x> SIZE=1001", on(maxBytes > 0, 552, 250))
+								// every parameter that is enabled, all in one command
+								{
+									all := "MAIL FROM:<p@x> SIZE=10 BODY=8BITMIME AUTH=<>"
+									if cfg.UTF8 {
+										all += " SMTPUTF8"
+									}
+									if cfg.RequireTLS {
+										all += " REQUIRETLS"
+									}
+									if cfg.DSN {
+										all += " RET=FULL ENVID=e2"
+									}
+									probe(all, 250)
+								}
 								f.cmd("MAIL FROM:<p@x>", 250)
 								acc := 0
 								rprobe := func(line string, enabled bool) {
